@@ -16,6 +16,7 @@ type SkClause struct {
 	Sel   int    `json:"sel"`
 	PV    bool   `json:"pv"`
 	Dir   string `json:"dir"`
+	W     string `json:"w"`
 }
 
 func nodeText(v string, kind int, props string) string {
@@ -81,6 +82,10 @@ func Render(sk []SkClause) string {
 			sb.WriteString(nodeText(c.X, c.XK, "") + relText("E1", "*1..", c.Dir) + nodeText(c.Y, c.YK, ""))
 			bind(c.X)
 			bind(c.Y)
+		case "chain3":
+			sb.WriteString(nodeText(c.X, c.XK, "") + relText("E1", "*0..", c.Dir) + "()" + relText("E2", "", c.Dir) + "()" + relText("E1", "", c.Dir) + nodeText(c.Y, c.YK, ""))
+			bind(c.X)
+			bind(c.Y)
 		case "chain":
 			sb.WriteString(nodeText(c.X, c.XK, "") + relText("E1", "*0..", c.Dir) + "()" + relText("E2", "", c.Dir) + nodeText(c.Y, c.YK, ""))
 			bind(c.X)
@@ -90,6 +95,18 @@ func Render(sk []SkClause) string {
 			sb.WriteString(" where " + strings.Join(conds, " and "))
 		}
 		sb.WriteString(" ")
+		if i+1 < len(sk) && c.W != "" && c.W != "none" {
+			carried := bound
+			if c.W == "x" {
+				carried = []string{c.X}
+			}
+			sb.WriteString("with " + strings.Join(carried, ", ") + " ")
+			bound = append([]string{}, carried...)
+			seen = map[string]bool{}
+			for _, v := range bound {
+				seen[v] = true
+			}
+		}
 	}
 	sb.WriteString("return " + strings.Join(bound, ", "))
 	return sb.String()
